@@ -356,4 +356,26 @@ def check_C13(pid, tier, seed, verdict):
     return _pool(pid, tier, seed, verdict)
 
 
-CHECKS = {"C12": check_C12, "C13": check_C13, "C10": check_C10, "C14": check_C14, "C09": check_C09, "C11": check_C11, "C01": check_C01, "C02": check_C02, "C03": check_C03, "C04": check_C04, "C05": check_C05}
+# ------------------------------------------------------------------------------------------- C07
+def check_C07(pid, tier, seed, verdict):
+    mcs = [mc_must_hold(pid, verdict, "Dest.tla", "MC_Dest.cfg", workers=4), mc_must_fail(pid, "Dest.tla", "MC_Dest_dev.cfg", workers=4)]
+    run = V.run_harness(pid, "dest", seed, tier)
+    res = V.run_trace(pid, "Trace_Dest.tla", "Trace_Dest.cfg", run["trace"])
+    verdict.add_trace_result("dest", res, run)
+    cnt = res["cnt"]
+    V.log(f"[{pid}] trace: {cnt['scn']} scenarios, {cnt['resolve']} resolver calls, {cnt['dreq']} destinations requested, "
+          f"{cnt['dial'] + cnt['udp_target']} dials observed, bad={len(res['bad'])}")
+    cov = _cov(mcs, cnt["scn"], cnt["nontrivial"],
+               "scenario = one resolver history (localhost through /etc/hosts and names whose cache entry was filled by a lookup "
+               "for another port; ports 0/1/80/255/256/443/8080/65534/65535) within the cache lifetime; or 1-4 destinations "
+               "(IPv4, IPv6, names of 1/2/9/63/64/127/128/254/255 bytes, boundary and random ports) sent by a scripted peer to a "
+               "real server Session + real stream handler with the header cut at random (thorough: every) positions across PSH "
+               "frames and transport reads; or 2-6 destinations requested through the real Client, SOCKS5 front-end (request cut "
+               "into two segments), HTTP CONNECT and a UDP association against the real server; the address the server is about "
+               "to dial is reported by a cfg-guarded hook; non-trivial = scenarios with at least one dial or resolver answer judged",
+               V.sample_descrs(run["descr"]), True, dict(trace_events=res["lines"], event_counts=cnt))
+    return cov, ["histories beyond the 60 s cache lifetime are covered by the model only (the cache uses std::time::Instant)",
+                 "names other than localhost are made resolvable by pre-seeding the cache through a cfg-guarded hook"]
+
+
+CHECKS = {"C07": check_C07, "C12": check_C12, "C13": check_C13, "C10": check_C10, "C14": check_C14, "C09": check_C09, "C11": check_C11, "C01": check_C01, "C02": check_C02, "C03": check_C03, "C04": check_C04, "C05": check_C05}
